@@ -334,12 +334,14 @@ class WsgiStream(Stream):
         return m.group(1) if m else None
 
     def nontrivial(self, case, real_out):
-        return not real_out.startswith("!")
+        return not real_out.startswith("!") and not real_out.startswith("EXC:")
 
     def bucket(self, case, real_out):
         if real_out.startswith("!"):
             return "ctor-" + real_out
         info = self.info(case)
+        if info is None or real_out.startswith("EXC:"):
+            return real_out[:40]
         code = info["status_code"]
         cls = "1xx" if 100 <= code < 200 else str(code) if code in (204, 304) else "other"
         return f"{case['body'][0]} {case['method']} {cls} dp={case['dp']}"
